@@ -1,12 +1,32 @@
 PROPS["C04"] = prop(
     "exploration",
-    "rapid-generated range lists against a covered-id-set model (pure) + stateful world programs against a reference history/deletion model",
-    "pure unit: rapid lists of 0-7 ranges (singles as hi=0 and hi=low+1, overlapping, nested, adjacent), non-trivial = >=3 ranges with an overlap and an adjacency; "
-    "world unit: see per-unit class histogram; distinct = FNV-64 of the case",
-    "Generated range lists and generated publish/delete/query histories are compared with a reference model written from the statement; sampled, not exhaustive.",
-    "Trusts the reference models in harness/types/c04_test.go and harness/world; store contract = verifmem (written from the MySQL adapter's SQL).",
+    "property-based testing (rapid): (1) generated range lists through RangeSorter+Normalize against a covered-id-set model (pure); "
+    "(2) generated publish/delete/query histories run on the real hub/topics/sessions over the verifmem store (world engine, synctest bubble) "
+    "against an explicit reference model of history and deletion written from the statement and fed only by acknowledged (2xx) requests: "
+    "messages (seq, author, content, ts), per-user soft-deleted sets per subscription incarnation, hard-deleted set, delete-transaction counter, log of delete transactions. "
+    "Every {get data} answer, {get del} answer and {del msg} outcome is compared with the model; after every step the store snapshot "
+    "(messages: deleted marks, erased content; deletion-log rows per user; topic delete counter) is compared with the model; every {data} frame is checked for cross-topic mixing",
+    "pure unit (TestC04Normalize): rapid lists of 0-7 ranges (singles as hi=0 and hi=low+1, overlapping, nested, adjacent), non-trivial = >=3 ranges with an overlap and an adjacency; "
+    "world unit (TestC04History): 3-6 sessions of 4 users (owner, member/P2P peer, members or channel readers), one group topic (35% channel) + one P2P topic (70%), 3-9 messages "
+    "(3%: 101-104, beyond the store's maximum of 100 per query) + 6-24 drawn ops: {del msg} soft/hard with 1-6 entries (unsorted, duplicated, touching, overlapping, nested, one apart, "
+    "hi=0 / hi=low / hi=low+1, up to and beyond the last id, 4% outside the domain: low 0/negative/beyond last, inverted, negative hi, 0-0) followed by {get data} of the requester and of "
+    "another user, {get data} with since/before/limit from {absent, 0, negative, 1.., last-1, last, last+1, beyond, inverted, 99/100/101/1000}, {get del} (30% with since/before/limit), "
+    "{get data del}, publishes, {set sub user= mode=} by the owner / P2P peer and {set sub mode=} by the user with and without R and D, leave / leave-unsub + re-sub, eviction, reload, restart, tick; "
+    "channel readers address the topic as chnXXX (5% of their gets as grpXXX). "
+    "non-trivial = >=1 accepted delete listing >=2 entries that overlap or touch, >=1 accepted hard and >=1 accepted soft delete (degraded ones count as soft), and afterwards >=1 {get data} "
+    "by an attached reader judged exactly; distinct = FNV-64 of the case; see the class histogram for the share of cases with limit-cut answers, channel readers, non-readers, "
+    "queries by a non-deleter, unsub/evict/reload/restart, out-of-domain deletes accepted",
+    "Generated range lists and generated publish/delete/query histories are compared with reference models written from the statement; sampled, not exhaustive.",
+    "Trusts the reference models in harness/types/c04_test.go and harness/world/c04_test.go; store contract = verifmem (written from the MySQL adapter's SQL: newest-first, limit min(opt,100), "
+    "unsubscribing drops the user's deletion log). Permissions are read from the store rows before the step and judged only where the loaded topic's cache agrees "
+    "(permObs.agreed; a delete accepted under disagreement stops the judging of that topic). Root/obo requests are not generated.",
     "5/C04", "types-pure+world",
     [Unit("TestC04Normalize", "server/store/types", quick=50000, thorough=1000000, shards_quick=4, shards_thorough=16),
      Unit("TestC04History", "server", quick=1500, thorough=80000, shards_quick=8, shards_thorough=16, timeout_quick=400)],
-    ["ranges are sorted with RangeSorter before Normalize, as both callers do"],
+    ["ranges are sorted with RangeSorter before Normalize, as both callers do",
+     "a delete request with an entry outside 1 <= low <= last id, hi = 0 or hi >= low (or with no entry) may be refused (then: no effect) or accepted (then: the same clipping rule)",
+     "when the limit cuts a history answer the newest ids are kept (store contract: ORDER BY seqid DESC LIMIT n); the order of the {data} frames is not judged",
+     "{get del} with since/before selects delete transactions since <= id < before; with a limit smaller than the number of listed entries only 'no id that was not deleted for the user' is judged; id 0 in a reported range is ignored (it never exists)",
+     "a delete request from a session that is not attached, or from a channel reader, may be refused; only 'refused => no effect' is judged there",
+     "unsubscribing (or eviction) ends a subscription incarnation: the user's soft deletions and their log entries are gone after re-subscription (DESIGN.md 3.3)"],
 )
